@@ -54,11 +54,15 @@ def _asc(d, arr_along_last):
     return d, a
 
 
-def equalize_case(M, lens, kinds, shapes, axes, fill=0, offsets=None, stack=None):
+def equalize_case(M, lens, kinds, shapes, axes, fill=0, offsets=None, stack=None, concrete=None):
     from dreye.api.domain import equalize_domains
     nd = len(lens)
     offsets = offsets or [0.0] * nd
-    doms = [_domain(M, f"d{i}", lens[i], kinds[i], offsets[i]) for i in range(nd)]
+    if concrete is not None:
+        # concrete integer-typed wavelength grids (what users pass: np.arange(300, 701, 5)); the arrays stay symbolic
+        doms = [np.array(c, dtype=np.int64) for c in concrete]
+    else:
+        doms = [_domain(M, f"d{i}", lens[i], kinds[i], offsets[i]) for i in range(nd)]
     arrs = []
     for i in range(nd):
         shp = list(shapes[i]); shp[axes[i]] = lens[i]
@@ -230,6 +234,10 @@ def cases(tier, seed):
     add("fill value 7", "equalize_case", lens=[3, 3], kinds=["asc", "asc"], shapes=[(3,), (3,)], axes=[0, 0], fill=7, offsets=[0.0, 0.5])
     add("stack axis 0", "equalize_case", lens=[3, 3], kinds=["asc", "asc"], shapes=[(2, 3), (2, 3)], axes=[-1, -1], stack=(0, False), offsets=[0.0, 0.5])
     add("concatenate axis 0", "equalize_case", lens=[3, 4], kinds=["asc", "desc"], shapes=[(2, 3), (1, 4)], axes=[-1, -1], stack=(0, True), offsets=[0.0, 0.5])
+    for nm, cs in (("[0,2,..,10] / [3,6,9,12]", ([0, 2, 4, 6, 8, 10], [3, 6, 9, 12])), ("[300,350,..,700] / [350,550,750]", (list(range(300, 701, 50)), [350, 550, 750])),
+                   ("[10,8,..,0] / [1,4,7]", ([10, 8, 6, 4, 2, 0], [1, 4, 7]))):
+        add(f"integer-typed domains {nm}", "equalize_case", lens=[len(c) for c in cs], kinds=["asc" if c[0] < c[-1] else "desc" for c in cs],
+            shapes=[(len(c),) for c in cs], axes=[0, 0], concrete=[list(c) for c in cs])
     add("identical domains n=3", "same_domain_case", n=3)
     add("estimator capture foreign domain 3+3 asc", "capture_case", nfd=3, nsd=3, kind_s="asc")
     add("estimator capture foreign domain 3+2 desc", "capture_case", nfd=3, nsd=2, kind_s="desc")
